@@ -276,6 +276,12 @@ def probe_layer() -> J:
     dobjs.append({"t": "SFIELD", "name": "sf_ooo", "struct": "st_ooo", "n": 2, "item_size": 5})
     rq("p_static_ooo", [sid(), p_value("f", "sf_ooo"), u8const("tail", 0x98)],
        "static-field-items-out-of-order")
+    # ... and items that are filled completely (no padding needed) although the cursor sits
+    # in their middle after the last listed parameter
+    dobjs.append(_struct("st_ooo_full", [p_value("late", "u16", byte=2), p_value("early", "u16", byte=0)]))
+    dobjs.append({"t": "SFIELD", "name": "sf_ooo_full", "struct": "st_ooo_full", "n": 3, "item_size": 4})
+    rq("p_static_ooo_full", [sid(), p_value("f", "sf_ooo_full"), u8const("tail", 0x95)],
+       "static-field-items-out-of-order-filled")
     # static field / end-of-PDU field whose items end with a terminated string (the item size
     # depends on the PDU; every item but the last one of the PDU carries its terminator)
     dobjs.append(_struct("st_var", [p_value("k", "u8"), p_value("s", "mmz")]))
